@@ -985,6 +985,54 @@ def known_findings_stream(ck):
             ck.count("known_F-C16-c_forms", len(seen))
 
 
+def eval_filter_stream(ck):
+    """the `eval` filter evaluates a string of the data as an expression over the cell's variables: a name
+    that expression refers to and the context lacks is an undefined reference like any other (direct
+    oracle on the real CellParser, text and native templates; defined names give exactly their value)"""
+    from rpft.parsers.common.cellparser import CellParser
+
+    rng = ck.rng
+    cp = CellParser()
+    names = ["vip", "tier", "age", "row"]
+    n = 0
+    for _ in range(60 if ck.tier == "quick" else 600):
+        ctx = {"vip": rng.choice(["yes", "no", ""]), "tier": rng.choice(["gold", "A|B", "é"]), "age": rng.randint(0, 9),
+               "row": {"name": rng.choice(["Ann", "Bo"]), "n": rng.randint(0, 3)}}
+        missing = rng.choice([None, None] + names)
+        if missing:
+            del ctx[missing]
+        expr_name = rng.choice(names)
+        # (Python expressions: the filter is Python's eval over the cell's variables)
+        expr = rng.choice([expr_name, expr_name, f" {expr_name} ", "row['name']" if expr_name == "row" else expr_name,
+                           "row['n']" if expr_name == "row" else expr_name])
+        ctx["rule"] = {"expr": expr}
+        for cell, native in (("{{ rule.expr|eval }}", False), ("{@ rule.expr|eval @}", True), ("T: {{ rule['expr']|eval }}!", False)):
+            n += 1
+            with LogCapture() as cap:
+                try:
+                    res = cp.parse_as_string(cell, ctx, CellParser.BooleanWrapper())
+                    exc = None
+                except Exception as e:  # noqa: BLE001
+                    res, exc = None, repr(e)
+            reported = bool(cap.criticals()) or exc is not None
+            defined = expr_name in ctx
+            ck.case(json.dumps([cell, expr, sorted(ctx)], default=str), nontrivial=True)
+            ck.count("eval_filter." + ("defined" if defined else "undefined"))
+            if not defined and not reported:
+                ck.violation("an expression evaluated by the `eval` filter names an undefined variable, yet nothing is reported: delivered " + repr(res)[:80],
+                             {"cell": cell, "context": ctx, "expression": expr, "undefined_name": expr_name, "delivered": repr(res)})
+            elif defined and not reported:
+                want = eval(expr, {}, dict(ctx))          # the documented meaning: the expression over the cell's variables
+                ok = (res == want) if native else (res == cell.replace("{{ rule.expr|eval }}", str(want)).replace("{{ rule['expr']|eval }}", str(want)))
+                if not ok:
+                    ck.violation("the `eval` filter does not deliver the value of the expression", {"cell": cell, "context": ctx, "expression": expr, "delivered": repr(res), "expected": repr(want)})
+            elif defined and reported:
+                ck.violation("the `eval` filter reports an error although every name of the expression is defined",
+                             {"cell": cell, "context": ctx, "expression": expr, "errors": cap.criticals()[:1], "exc": exc})
+    ck.evaluations += 0
+    return n
+
+
 # ------------------------------------------------------------------ end to end: ONE template instantiated SEVERAL times in one run
 # Instantiations are independent: what a run delivers for an instantiation (or that it is
 # rejected) must be what a FRESH run of that instantiation alone delivers.  In particular a name
@@ -1419,6 +1467,7 @@ def run(ck: core.Check):
 
     # ---- known findings (deterministic)
     known_findings_stream(ck)
+    eval_filter_stream(ck)
 
     # ---- end to end: every cell
     n_sheets = 2 if quick else 5
